@@ -200,7 +200,7 @@ func init() {
 		"objects dropped upstream while CDC was down (synthetic drop path) are exercised under C04, not here",
 	}
 	props["C01"] = &propDef{level: "exploration", rule: dmlRule, assume: dmlAssume, workers: 6, conc: 6,
-		nCases: func(r *vf.Run) int { return r.Pick(60, 900) },
+		nCases: func(r *vf.Run) int { return r.Pick(300, 6000) },
 		gen:    func(seed int64, idx int) *Case { return genCase(seed, idx, dmlOpts) },
 		check: func(run *vf.Run, res *caseResult) {
 			vs := checkC01(res.rt, run)
@@ -210,14 +210,14 @@ func init() {
 			noteDML(run, res)
 		},
 		floors: func(run *vf.Run) {
-			run.Floor("cases_quiescent", run.Pick(20, 300))
-			run.Floor("data_messages_observed", run.Pick(2000, 30000))
-			run.Floor("interleavings", run.Pick(10, 150))
+			run.Floor("cases_quiescent", run.Pick(100, 2000))
+			run.Floor("data_messages_observed", run.Pick(10000, 200000))
+			run.Floor("interleavings", run.Pick(80, 1500))
 			run.Floor("cases_with_forwarded_packs", 1)
 			run.Floor("filtered_junk_messages", 1)
 		}}
 	props["C02"] = &propDef{level: "exploration", rule: dmlRule, assume: dmlAssume, workers: 6, conc: 6,
-		nCases: func(r *vf.Run) int { return r.Pick(60, 900) },
+		nCases: func(r *vf.Run) int { return r.Pick(300, 6000) },
 		gen:    func(seed int64, idx int) *Case { return genCase(seed, idx, dmlOpts) },
 		check: func(run *vf.Run, res *caseResult) {
 			vs := checkC02(res.rt, run)
@@ -227,10 +227,10 @@ func init() {
 			noteDML(run, res)
 		},
 		floors: func(run *vf.Run) {
-			run.Floor("cases_quiescent", run.Pick(20, 300))
-			run.Floor("cases_with_different_placement", run.Pick(5, 80))
-			run.Floor("forwarded_data_packs", run.Pick(20, 300))
-			run.Floor("lazily_learned_partitions", run.Pick(3, 30))
+			run.Floor("cases_quiescent", run.Pick(100, 2000))
+			run.Floor("cases_with_different_placement", run.Pick(10, 200))
+			run.Floor("forwarded_data_packs", run.Pick(200, 4000))
+			run.Floor("lazily_learned_partitions", run.Pick(50, 1000))
 		}}
 }
 
